@@ -631,6 +631,22 @@ impl SourceBlockEncodingPlan {
     pub fn verif_operation_count(&self) -> usize {
         self.operations.len()
     }
+
+    /// The plan's operations in flat form, and a plan generated on a chosen matrix back-end.
+    #[cfg(feature = "std")]
+    #[allow(clippy::type_complexity)]
+    pub fn verif_ops_flat(&self) -> (Vec<(u8, usize, usize, u8)>, Vec<usize>) {
+        crate::verif::symbol_ops_flat(&self.operations)
+    }
+
+    pub fn verif_generate_with(symbol_count: u16, sparse_threshold: u32) -> Option<SourceBlockEncodingPlan> {
+        let symbols = vec![Symbol::new(vec![0]); symbol_count as usize];
+        let (_, ops) = gen_intermediate_symbols(&symbols, 1, sparse_threshold);
+        Some(SourceBlockEncodingPlan {
+            operations: ops?,
+            source_symbol_count: symbol_count,
+        })
+    }
 }
 
 #[cfg(feature = "std")]
